@@ -300,7 +300,7 @@ func checkC01(c *C01Case) Result {
 	wf := append([]Fired(nil), want.Fired...)
 	for _, l := range [][]Fired{gf, wf} {
 		for i := range l {
-			if r := rules[l[i].ID]; r != nil && (r.Multi || chainHasMulti(r)) {
+			if r := rules[l[i].ID]; false && r != nil {
 				l[i].Data = dedupTriples(l[i].Data)
 			}
 		}
@@ -319,7 +319,7 @@ func checkC01(c *C01Case) Result {
 		}
 		return false
 	}
-	asSet := func(id int) bool { r := rules[id]; return r != nil && (r.Multi || chainHasMulti(r)) }
+	asSet := func(id int) bool { return false } // multiMatch rules too: an unchanged value is not evaluated twice
 	if d := diffFiredSets(gf, wf, isCount, asSet); d != "" {
 		res.Fail = failf("%s\nengine fired %v, model fired %v\nconfig:\n%srequest: %s %s\n headers %q\n cookies %q\n post %q resp-headers %q", d,
 			firedIDs(got.Fired), firedIDs(want.Fired), conf, c.Req.Method, c.Req.URI(), c.Req.AllHeaders(), c.Req.Cookies, c.Req.Post, c.Req.RespHeaders)
